@@ -86,6 +86,11 @@ def gated (c : Cfg) (s : St) (now : Int) : Bool :=
   | some g => decide (now - g < gcInterval c.window)
   | none => false
 
+/-- the `while let Some(..) = expiry_queue.peek()` loop over the popped entries: each one rewrites
+the vector of its `(source, key)` with the per-entry action -/
+def gcFold (act : List Ev → List Ev) (qs : List (Int × Nat × Nat)) (b : List (SK × List Ev)) : List (SK × List Ev) :=
+  qs.foldl (fun b q => set b (q.2.1, q.2.2) (act (get b (q.2.1, q.2.2)))) b
+
 /-- `cleanup_expired(now)`, parameterised by the per-entry action -/
 def cleanupWith (act : Int → List Ev → List Ev) (c : Cfg) (s : St) (now : Int) : St :=
   if gated c s now then s
@@ -93,7 +98,7 @@ def cleanupWith (act : Int → List Ev → List Ev) (c : Cfg) (s : St) (now : In
     let cutoff := now - c.window
     let expired := s.queue.filter fun q => decide (q.1 ≤ now)
     let rest := s.queue.filter fun q => !decide (q.1 ≤ now)
-    let bufs := expired.foldl (fun b q => set b (q.2.1, q.2.2) (act cutoff (get b (q.2.1, q.2.2)))) s.bufs
+    let bufs := gcFold (act cutoff) expired s.bufs
     { bufs := bufs, queue := rest, lastGc := some now }
 
 /-- `while key_events.len() >= max { key_events.remove(0) }` (for `max ≥ 1`) -/
